@@ -34,7 +34,14 @@ RULE = ("one operation = one complete key exchange of the real client (NewMTProt
         "use the same key; first in every run, c06.seq operations = several exchanges in ONE operation: three keys "
         "one after another with the caller's key object fresh / one object reassigned / one object overwritten in "
         "place, and the client's session storage saying 'nothing stored' as a not-found error, as (nil, nil), or "
-        "failing with another error (then NewMTProto must give up: no client, nothing sent or stored). "
+        "failing with another error (then NewMTProto must give up: no client, nothing sent or stored). And c06.hist "
+        "operations = the exchange as ONE step of what the application does with one client value: before it a "
+        "CreateConnection while the server is not up yet (address reserved, nobody listens: refused; once and twice, "
+        "with and without a Disconnect before the retry), a CreateConnection against a server that misbehaves once "
+        "at step 1 / 2 / 3 of the exchange (retry with and without a Disconnect in between); after it Reconnect, "
+        "Disconnect + CreateConnection, before the first request is issued - 14 fixed histories and random ones "
+        "(1 in 8 random exchanges); the exchange against the conformant server must end exactly like a first one "
+        "(same oracle), the earlier attempts with their error, the later calls with nil. "
         "distinct = distinct operation lines; each is compared with the Lean client machine run against the Lean "
         "ServerSpec (request bodies, keys, salts, hash, flags, stores on both sides) and judged from the server's "
         "own values")
